@@ -25,20 +25,23 @@ Where each fact is used by the model:
 * `V1/V2.load*/loadLatest*/store*/decode*`  result mapping of `ddbStep` (nil item → nil,nil; first item of the query;
                                         every PutItem error → false,err).
 * `withTableNameSkeleton`, `regionSuffixSkeleton`, `newSkeleton`  `ddbTableName` and the region-suffix observation.
+
+In all expressions the receiver is printed `r`, parameters `p0,p1,…` and local variables `l0,l1,…` (order of
+declaration): the extractor normalises names, so renaming a variable is not a change of shape.
 -/
 namespace AsherahVerif.Expected.Metastore
 def ekrJsonTags : List (String × String) := [("Revoked", "Revoked,omitempty"), ("ID", "-"), ("Created", "Created"), ("EncryptedKey", "Key"), ("ParentKeyMeta", "ParentKeyMeta,omitempty")]
 def keyMetaJsonTags : List (String × String) := [("ID", "KeyId"), ("Created", "Created")]
-def memLoadSkeleton : List String := ["s.RLock", "defer:s.RUnlock", "if(ok){", "return", "}", "return"]
-def memLoadLatestSkeleton : List String := ["s.RLock", "defer:s.RUnlock", "if(ok){", "range(keyIDMap){", "}", "func{", "return", "}", "sort.Slice", "if(ok){", "return", "}", "}", "return"]
-def memStoreSkeleton : List String := ["s.Lock", "defer:s.Unlock", "if(ok){", "return", "}", "if(!ok){", "assign:s.Envelopes[keyID]", "}", "assign:s.Envelopes[keyID][created]", "return"]
-def memLoadAssigns : List String := ["ret,ok:=s.Envelopes[keyID][created]"]
-def memLoadReturns : List String := ["ret,nil", "nil,nil"]
-def memLoadLatestAssigns : List String := ["keyIDMap,ok:=s.Envelopes[keyID]", "createdKeys=append(createdKeys,created)", "latestCreated:=createdKeys[len(createdKeys)-1]", "ret,ok:=keyIDMap[latestCreated]"]
-def memLoadLatestReturns : List String := ["ret,nil", "nil,nil"]
-def memStoreAssigns : List String := ["_,ok:=s.Envelopes[keyID][created]", "_,ok:=s.Envelopes[keyID]", "s.Envelopes[keyID]=make(<*ast.MapType>)", "s.Envelopes[keyID][created]=envelope"]
+def memLoadSkeleton : List String := ["r.RLock", "defer:r.RUnlock", "if(l1){", "return", "}", "return"]
+def memLoadLatestSkeleton : List String := ["r.RLock", "defer:r.RUnlock", "if(l1){", "range(l0){", "}", "func{", "return", "}", "sort.Slice", "if(l1){", "return", "}", "}", "return"]
+def memStoreSkeleton : List String := ["r.Lock", "defer:r.Unlock", "if(l0){", "return", "}", "if(!l0){", "assign:r.Envelopes[p0]", "}", "assign:r.Envelopes[p0][p1]", "return"]
+def memLoadAssigns : List String := ["l0,l1:=r.Envelopes[p0][p1]"]
+def memLoadReturns : List String := ["l0,nil", "nil,nil"]
+def memLoadLatestAssigns : List String := ["l0,l1:=r.Envelopes[p0]", "l2=append(l2,l3)", "l6:=l2[len(l2)-1]", "l7,l1:=l0[l6]"]
+def memLoadLatestReturns : List String := ["l7,nil", "nil,nil"]
+def memStoreAssigns : List String := ["_,l0:=r.Envelopes[p0][p1]", "_,l0:=r.Envelopes[p0]", "r.Envelopes[p0]=make(<*ast.MapType>)", "r.Envelopes[p0][p1]=p2"]
 def memStoreReturns : List String := ["false,nil", "true,nil"]
-def memLoadLatestSortLess : List String := ["createdKeys[i]<createdKeys[j]"]
+def memLoadLatestSortLess : List String := ["l2[l4]<l2[l5]"]
 def memEnvelopesType : String := "map[string]map[int64]*appencryption.EnvelopeKeyRecord"
 def sqlLoadKeyQuery : String := "SELECT key_record FROM encryption_key WHERE id = ? AND created = ?"
 def sqlStoreKeyQuery : String := "INSERT INTO encryption_key (id, created, key_record) VALUES (?, ?, ?)"
@@ -48,78 +51,78 @@ def sqlOracle : String := "oracle"
 def sqlMySQL : String := "mysql"
 def sqlDefaultDBType : String := "MySQL"
 def sqlQrx : String := "regexp.MustCompile(`\\?`)"
-def sqlQSkeleton : List String := ["switch(t){", "case(Postgres):", "case(Oracle):", "default:", "return", "}", "func{", "assign:n++", "strconv.Itoa", "return^", "}", "qrx.ReplaceAllStringFunc", "return^"]
-def sqlQReturns : List String := ["sql", "qrx.ReplaceAllStringFunc(sql,func)"]
-def sqlQAssigns : List String := ["pref=\"$\"", "pref=\":\"", "n:=0"]
-def sqlQReplacement : List String := ["pref+strconv.Itoa(n)"]
-def sqlLoadAssigns : List String := ["t:=time.Unix(created,0)"]
-def sqlStoreAssigns : List String := ["bytes,err:=json.Marshal(envelope)", "createdAt:=time.Unix(created,0)", "_,err:=s.db.ExecContext(ctx,s.storeKeyQuery,keyID,createdAt,string(bytes))"]
-def sqlWithDBTypeSkeleton : List String := ["func{", "assign:s.dbType", "t.q", "assign:s.loadKeyQuery", "t.q", "assign:s.storeKeyQuery", "t.q", "assign:s.loadLatestQuery", "}", "return^"]
-def sqlNewFields : List (String × String) := [("db", "dbHandle"), ("dbType", "DefaultDBType"), ("loadKeyQuery", "defaultLoadKeyQuery"), ("storeKeyQuery", "defaultStoreKeyQuery"), ("loadLatestQuery", "defaultLoadLatestQuery")]
-def sqlNewSkeleton : List String := ["range(opts){", "opt", "}", "return"]
-def sqlParseEnvelopeSkeleton : List String := ["s.Scan", "if(err!=nil){", "errors.Is", "if(errors.Is(err,sql.ErrNoRows)){", "return", "}", "fmt.Errorf", "return^", "}", "[]byte", "json.Unmarshal", "if(err!=nil){", "fmt.Errorf", "return^", "}", "return"]
-def sqlParseEnvelopeReturns : List String := ["nil,nil", "nil,fmt.Errorf", "nil,fmt.Errorf", "keyRecord,nil"]
-def sqlLoadSkeleton : List String := ["time.Now", "defer:loadSQLTimer.UpdateSince", "time.Unix", "s.db.QueryRowContext", "parseEnvelope", "return^"]
-def sqlLoadArgs : List String := ["ctx", "s.loadKeyQuery", "keyID", "t"]
-def sqlLoadLatestSkeleton : List String := ["time.Now", "defer:loadLatestSQLTimer.UpdateSince", "s.db.QueryRowContext", "parseEnvelope", "return^"]
-def sqlLoadLatestArgs : List String := ["ctx", "s.loadLatestQuery", "keyID"]
-def sqlStoreSkeleton : List String := ["time.Now", "defer:storeSQLTimer.UpdateSince", "json.Marshal", "if(err!=nil){", "fmt.Errorf", "return^", "}", "time.Unix", "s.db.ExecContext", "if(err!=nil){", "fmt.Errorf", "return^", "}", "return"]
-def sqlStoreArgs : List String := ["ctx", "s.storeKeyQuery", "keyID", "createdAt", "string(bytes)"]
+def sqlQSkeleton : List String := ["switch(r){", "case(Postgres):", "case(Oracle):", "default:", "return", "}", "func{", "assign:l1++", "strconv.Itoa", "return^", "}", "qrx.ReplaceAllStringFunc", "return^"]
+def sqlQReturns : List String := ["p0", "qrx.ReplaceAllStringFunc(p0,func)"]
+def sqlQAssigns : List String := ["l0=\"$\"", "l0=\":\"", "l1:=0"]
+def sqlQReplacement : List String := ["l0+strconv.Itoa(l1)"]
+def sqlLoadAssigns : List String := ["l0:=time.Unix(p2,0)"]
+def sqlStoreAssigns : List String := ["l0,l1:=json.Marshal(p3)", "l2:=time.Unix(p2,0)", "_,l1:=r.db.ExecContext(p0,r.storeKeyQuery,p1,l2,string(l0))"]
+def sqlWithDBTypeSkeleton : List String := ["func{", "assign:l0.dbType", "p0.q", "assign:l0.loadKeyQuery", "p0.q", "assign:l0.storeKeyQuery", "p0.q", "assign:l0.loadLatestQuery", "}", "return^"]
+def sqlNewFields : List (String × String) := [("db", "p0"), ("dbType", "DefaultDBType"), ("loadKeyQuery", "defaultLoadKeyQuery"), ("storeKeyQuery", "defaultStoreKeyQuery"), ("loadLatestQuery", "defaultLoadLatestQuery")]
+def sqlNewSkeleton : List String := ["range(p1){", "l1", "}", "return"]
+def sqlParseEnvelopeSkeleton : List String := ["p0.Scan", "if(l1!=nil){", "errors.Is", "if(errors.Is(l1,sql.ErrNoRows)){", "return", "}", "fmt.Errorf", "return^", "}", "[]byte", "json.Unmarshal", "if(l1!=nil){", "fmt.Errorf", "return^", "}", "return"]
+def sqlParseEnvelopeReturns : List String := ["nil,nil", "nil,fmt.Errorf", "nil,fmt.Errorf", "l2,nil"]
+def sqlLoadSkeleton : List String := ["time.Now", "defer:loadSQLTimer.UpdateSince", "time.Unix", "r.db.QueryRowContext", "parseEnvelope", "return^"]
+def sqlLoadArgs : List String := ["p0", "r.loadKeyQuery", "p1", "l0"]
+def sqlLoadLatestSkeleton : List String := ["time.Now", "defer:loadLatestSQLTimer.UpdateSince", "r.db.QueryRowContext", "parseEnvelope", "return^"]
+def sqlLoadLatestArgs : List String := ["p0", "r.loadLatestQuery", "p1"]
+def sqlStoreSkeleton : List String := ["time.Now", "defer:storeSQLTimer.UpdateSince", "json.Marshal", "if(l1!=nil){", "fmt.Errorf", "return^", "}", "time.Unix", "r.db.ExecContext", "if(l1!=nil){", "fmt.Errorf", "return^", "}", "return"]
+def sqlStoreArgs : List String := ["p0", "r.storeKeyQuery", "p1", "l2", "string(l0)"]
 def sqlStoreReturns : List String := ["false,fmt.Errorf", "false,fmt.Errorf", "true,nil"]
 namespace V1
 def partitionKey : String := "Id"
 def sortKey : String := "Created"
 def keyRecord : String := "KeyRecord"
 def defaultTableName : String := "EncryptionKey"
-def getItemFields : List (String × String) := [("ExpressionAttributeNames", "expr.Names()"), ("Key", "map{partitionKey:{S:&keyID},sortKey:{N:aws.String(strconv.FormatInt(created,10))}}"), ("ProjectionExpression", "expr.Projection()"), ("TableName", "aws.String(d.tableName)"), ("ConsistentRead", "aws.Bool(true)")]
+def getItemFields : List (String × String) := [("ExpressionAttributeNames", "l1.Names()"), ("Key", "map{partitionKey:{S:&p1},sortKey:{N:aws.String(strconv.FormatInt(p2,10))}}"), ("ProjectionExpression", "l1.Projection()"), ("TableName", "aws.String(r.tableName)"), ("ConsistentRead", "aws.Bool(true)")]
 def getConsistentRead : Option Bool := some true
-def queryFields : List (String × String) := [("ConsistentRead", "aws.Bool(true)"), ("ExpressionAttributeNames", "expr.Names()"), ("ExpressionAttributeValues", "expr.Values()"), ("KeyConditionExpression", "expr.KeyCondition()"), ("Limit", "aws.Int64(1)"), ("ProjectionExpression", "expr.Projection()"), ("ScanIndexForward", "aws.Bool(false)"), ("TableName", "aws.String(d.tableName)")]
+def queryFields : List (String × String) := [("ConsistentRead", "aws.Bool(true)"), ("ExpressionAttributeNames", "l2.Names()"), ("ExpressionAttributeValues", "l2.Values()"), ("KeyConditionExpression", "l2.KeyCondition()"), ("Limit", "aws.Int64(1)"), ("ProjectionExpression", "l2.Projection()"), ("ScanIndexForward", "aws.Bool(false)"), ("TableName", "aws.String(r.tableName)")]
 def queryConsistentRead : Option Bool := some true
 def queryScanIndexForward : Option Bool := some false
 def queryLimit : Option Int := some 1
-def putItemFields : List (String × String) := [("Item", "map{partitionKey:{S:&keyID},sortKey:{N:aws.String(strconv.FormatInt(created,10))},keyRecord:{M:av}}"), ("TableName", "aws.String(d.tableName)"), ("ConditionExpression", "aws.String(\"attribute_not_exists(\"+partitionKey+\")\")")]
+def putItemFields : List (String × String) := [("Item", "map{partitionKey:{S:&p1},sortKey:{N:aws.String(strconv.FormatInt(p2,10))},keyRecord:{M:l1}}"), ("TableName", "aws.String(r.tableName)"), ("ConditionExpression", "aws.String(\"attribute_not_exists(\"+partitionKey+\")\")")]
 def conditionExpression : String := "attribute_not_exists(Id)"
-def loadSkeleton : List String := ["time.Now", "defer:loadDynamoDBTimer.UpdateSince", "expression.Name", "expression.NamesList", "expression.NewBuilder", "expression.NewBuilder().WithProjection", "expression.NewBuilder().WithProjection(proj).Build", "if(err!=nil){", "fmt.Errorf", "return^", "}", "expr.Names", "strconv.FormatInt", "aws.String", "expr.Projection", "aws.String", "aws.Bool", "d.svc.GetItemWithContext", "if(err!=nil){", "fmt.Errorf", "return^", "}", "if(res.Item==nil){", "return", "}", "parseResult", "return^"]
-def loadReturns : List String := ["nil,fmt.Errorf", "nil,fmt.Errorf", "nil,nil", "parseResult(res.Item[keyRecord])"]
-def loadLatestSkeleton : List String := ["time.Now", "defer:loadLatestDynamoDBTimer.UpdateSince", "expression.Value", "expression.Key", "expression.Key(partitionKey).Equal", "expression.Name", "expression.NamesList", "expression.NewBuilder", "expression.NewBuilder().WithKeyCondition", "expression.NewBuilder().WithKeyCondition(cond).WithProjection", "expression.NewBuilder().WithKeyCondition(cond).WithProjection(proj).Build", "if(err!=nil){", "fmt.Errorf", "return^", "}", "aws.Bool", "expr.Names", "expr.Values", "expr.KeyCondition", "aws.Int64", "expr.Projection", "aws.Bool", "aws.String", "d.svc.QueryWithContext", "if(err!=nil){", "return", "}", "if(len(res.Items)==0){", "return", "}", "parseResult", "return^"]
-def loadLatestReturns : List String := ["nil,fmt.Errorf", "nil,err", "nil,nil", "parseResult(res.Items[0][keyRecord])"]
-def storeSkeleton : List String := ["time.Now", "defer:storeDynamoDBTimer.UpdateSince", "base64.StdEncoding.EncodeToString", "dynamodbattribute.MarshalMap", "if(err!=nil){", "fmt.Errorf", "return^", "}", "strconv.FormatInt", "aws.String", "aws.String", "aws.String", "d.svc.PutItemWithContext", "if(err!=nil){", "errors.As", "awsErr.Code", "if(errors.As(err,&awsErr)&&awsErr.Code()==dynamodb.ErrCodeConditionalCheckFailedException){", "fmt.Errorf", "return^", "}", "fmt.Errorf", "return^", "}", "return"]
+def loadSkeleton : List String := ["time.Now", "defer:loadDynamoDBTimer.UpdateSince", "expression.Name", "expression.NamesList", "expression.NewBuilder", "expression.NewBuilder().WithProjection", "expression.NewBuilder().WithProjection(l0).Build", "if(l2!=nil){", "fmt.Errorf", "return^", "}", "l1.Names", "strconv.FormatInt", "aws.String", "l1.Projection", "aws.String", "aws.Bool", "r.svc.GetItemWithContext", "if(l2!=nil){", "fmt.Errorf", "return^", "}", "if(l3.Item==nil){", "return", "}", "parseResult", "return^"]
+def loadReturns : List String := ["nil,fmt.Errorf", "nil,fmt.Errorf", "nil,nil", "parseResult(l3.Item[keyRecord])"]
+def loadLatestSkeleton : List String := ["time.Now", "defer:loadLatestDynamoDBTimer.UpdateSince", "expression.Value", "expression.Key", "expression.Key(partitionKey).Equal", "expression.Name", "expression.NamesList", "expression.NewBuilder", "expression.NewBuilder().WithKeyCondition", "expression.NewBuilder().WithKeyCondition(l0).WithProjection", "expression.NewBuilder().WithKeyCondition(l0).WithProjection(l1).Build", "if(l3!=nil){", "fmt.Errorf", "return^", "}", "aws.Bool", "l2.Names", "l2.Values", "l2.KeyCondition", "aws.Int64", "l2.Projection", "aws.Bool", "aws.String", "r.svc.QueryWithContext", "if(l3!=nil){", "return", "}", "if(len(l4.Items)==0){", "return", "}", "parseResult", "return^"]
+def loadLatestReturns : List String := ["nil,fmt.Errorf", "nil,l3", "nil,nil", "parseResult(l4.Items[0][keyRecord])"]
+def storeSkeleton : List String := ["time.Now", "defer:storeDynamoDBTimer.UpdateSince", "base64.StdEncoding.EncodeToString", "dynamodbattribute.MarshalMap", "if(l2!=nil){", "fmt.Errorf", "return^", "}", "strconv.FormatInt", "aws.String", "aws.String", "aws.String", "r.svc.PutItemWithContext", "if(l2!=nil){", "errors.As", "l3.Code", "if(errors.As(l2,&l3)&&l3.Code()==dynamodb.ErrCodeConditionalCheckFailedException){", "fmt.Errorf", "return^", "}", "fmt.Errorf", "return^", "}", "return"]
 def storeReturns : List String := ["false,fmt.Errorf", "false,fmt.Errorf", "false,fmt.Errorf", "true,nil"]
-def decodeSkeleton : List String := ["dynamodbattribute.Unmarshal", "if(err!=nil){", "fmt.Errorf", "return^", "}", "return"]
-def decodeReturns : List String := ["nil,fmt.Errorf", "&en,nil"]
-def withTableNameSkeleton : List String := ["func{", "if(len(table)>0){", "assign:d.tableName", "}", "}", "return^"]
+def decodeSkeleton : List String := ["dynamodbattribute.Unmarshal", "if(l1!=nil){", "fmt.Errorf", "return^", "}", "return"]
+def decodeReturns : List String := ["nil,fmt.Errorf", "&l0,nil"]
+def withTableNameSkeleton : List String := ["func{", "if(len(p0)>0){", "assign:l0.tableName", "}", "}", "return^"]
 def envelopeJsonTags : List (String × String) := [("Revoked", "Revoked,omitempty"), ("Created", "Created"), ("EncryptedKey", "Key"), ("ParentKeyMeta", "ParentKeyMeta,omitempty")]
-def envelopeFields : List (String × String) := [("Revoked", "envelope.Revoked"), ("Created", "envelope.Created"), ("EncryptedKey", "base64.StdEncoding.EncodeToString(envelope.EncryptedKey)"), ("ParentKeyMeta", "envelope.ParentKeyMeta")]
-def regionSuffixSkeleton : List String := ["func{", "if(enabled){", "p.ClientConfig", "assign:d.regionSuffix", "}", "}", "return^"]
-def newSkeleton : List String := ["dynamodb.New", "range(opts){", "opt", "}", "return"]
+def envelopeFields : List (String × String) := [("Revoked", "p3.Revoked"), ("Created", "p3.Created"), ("EncryptedKey", "base64.StdEncoding.EncodeToString(p3.EncryptedKey)"), ("ParentKeyMeta", "p3.ParentKeyMeta")]
+def regionSuffixSkeleton : List String := ["func{", "if(p0){", "l1.ClientConfig", "assign:l0.regionSuffix", "}", "}", "return^"]
+def newSkeleton : List String := ["dynamodb.New", "range(p1){", "l1", "}", "return"]
 end V1
 namespace V2
 def partitionKey : String := "Id"
 def sortKey : String := "Created"
 def keyRecord : String := "KeyRecord"
 def defaultTableName : String := "EncryptionKey"
-def getItemFields : List (String × String) := [("ExpressionAttributeNames", "expr.Names()"), ("Key", "map{partitionKey:&types.AttributeValueMemberS{Value:keyID},sortKey:&types.AttributeValueMemberN{Value:strconv.FormatInt(created,10)}}"), ("ProjectionExpression", "expr.Projection()"), ("TableName", "aws.String(d.tableName)"), ("ConsistentRead", "aws.Bool(true)")]
+def getItemFields : List (String × String) := [("ExpressionAttributeNames", "l1.Names()"), ("Key", "map{partitionKey:&types.AttributeValueMemberS{Value:p1},sortKey:&types.AttributeValueMemberN{Value:strconv.FormatInt(p2,10)}}"), ("ProjectionExpression", "l1.Projection()"), ("TableName", "aws.String(r.tableName)"), ("ConsistentRead", "aws.Bool(true)")]
 def getConsistentRead : Option Bool := some true
-def queryFields : List (String × String) := [("ConsistentRead", "aws.Bool(true)"), ("ExpressionAttributeNames", "expr.Names()"), ("ExpressionAttributeValues", "expr.Values()"), ("KeyConditionExpression", "expr.KeyCondition()"), ("Limit", "aws.Int32(1)"), ("ProjectionExpression", "expr.Projection()"), ("ScanIndexForward", "aws.Bool(false)"), ("TableName", "aws.String(d.tableName)")]
+def queryFields : List (String × String) := [("ConsistentRead", "aws.Bool(true)"), ("ExpressionAttributeNames", "l2.Names()"), ("ExpressionAttributeValues", "l2.Values()"), ("KeyConditionExpression", "l2.KeyCondition()"), ("Limit", "aws.Int32(1)"), ("ProjectionExpression", "l2.Projection()"), ("ScanIndexForward", "aws.Bool(false)"), ("TableName", "aws.String(r.tableName)")]
 def queryConsistentRead : Option Bool := some true
 def queryScanIndexForward : Option Bool := some false
 def queryLimit : Option Int := some 1
-def putItemFields : List (String × String) := [("Item", "map{partitionKey:&types.AttributeValueMemberS{Value:keyID},sortKey:&types.AttributeValueMemberN{Value:strconv.FormatInt(created,10)},keyRecord:&types.AttributeValueMemberM{Value:av}}"), ("TableName", "aws.String(d.tableName)"), ("ConditionExpression", "aws.String(\"attribute_not_exists(\"+partitionKey+\")\")")]
+def putItemFields : List (String × String) := [("Item", "map{partitionKey:&types.AttributeValueMemberS{Value:p1},sortKey:&types.AttributeValueMemberN{Value:strconv.FormatInt(p2,10)},keyRecord:&types.AttributeValueMemberM{Value:l2}}"), ("TableName", "aws.String(r.tableName)"), ("ConditionExpression", "aws.String(\"attribute_not_exists(\"+partitionKey+\")\")")]
 def conditionExpression : String := "attribute_not_exists(Id)"
-def loadSkeleton : List String := ["time.Now", "defer:loadDynamoDBTimer.UpdateSince", "expression.Name", "expression.NamesList", "expression.NewBuilder", "expression.NewBuilder().WithProjection", "expression.NewBuilder().WithProjection(proj).Build", "if(err!=nil){", "fmt.Errorf", "return^", "}", "expr.Names", "strconv.FormatInt", "expr.Projection", "aws.String", "aws.Bool", "d.svc.GetItem", "if(err!=nil){", "fmt.Errorf", "return^", "}", "if(res.Item==nil){", "return", "}", "decodeItem", "return^"]
-def loadReturns : List String := ["nil,fmt.Errorf", "nil,fmt.Errorf", "nil,nil", "decodeItem(res.Item)"]
-def loadLatestSkeleton : List String := ["time.Now", "defer:loadLatestDynamoDBTimer.UpdateSince", "expression.Value", "expression.Key", "expression.Key(partitionKey).Equal", "expression.Name", "expression.NamesList", "expression.NewBuilder", "expression.NewBuilder().WithKeyCondition", "expression.NewBuilder().WithKeyCondition(cond).WithProjection", "expression.NewBuilder().WithKeyCondition(cond).WithProjection(proj).Build", "if(err!=nil){", "fmt.Errorf", "return^", "}", "aws.Bool", "expr.Names", "expr.Values", "expr.KeyCondition", "aws.Int32", "expr.Projection", "aws.Bool", "aws.String", "d.svc.Query", "if(err!=nil){", "fmt.Errorf", "return^", "}", "if(len(res.Items)==0){", "return", "}", "decodeItem", "return^"]
-def loadLatestReturns : List String := ["nil,fmt.Errorf", "nil,fmt.Errorf", "nil,nil", "decodeItem(res.Items[0])"]
-def storeSkeleton : List String := ["time.Now", "defer:storeDynamoDBTimer.UpdateSince", "if(ekr.ParentKeyMeta!=nil){", "}", "base64.StdEncoding.EncodeToString", "attributevalue.MarshalMap", "if(err!=nil){", "fmt.Errorf", "return^", "}", "strconv.FormatInt", "aws.String", "aws.String", "d.svc.PutItem", "if(err!=nil){", "errors.As", "if(errors.As(err,&ccfe)){", "fmt.Errorf", "return^", "}", "fmt.Errorf", "return^", "}", "return"]
+def loadSkeleton : List String := ["time.Now", "defer:loadDynamoDBTimer.UpdateSince", "expression.Name", "expression.NamesList", "expression.NewBuilder", "expression.NewBuilder().WithProjection", "expression.NewBuilder().WithProjection(l0).Build", "if(l2!=nil){", "fmt.Errorf", "return^", "}", "l1.Names", "strconv.FormatInt", "l1.Projection", "aws.String", "aws.Bool", "r.svc.GetItem", "if(l2!=nil){", "fmt.Errorf", "return^", "}", "if(l3.Item==nil){", "return", "}", "decodeItem", "return^"]
+def loadReturns : List String := ["nil,fmt.Errorf", "nil,fmt.Errorf", "nil,nil", "decodeItem(l3.Item)"]
+def loadLatestSkeleton : List String := ["time.Now", "defer:loadLatestDynamoDBTimer.UpdateSince", "expression.Value", "expression.Key", "expression.Key(partitionKey).Equal", "expression.Name", "expression.NamesList", "expression.NewBuilder", "expression.NewBuilder().WithKeyCondition", "expression.NewBuilder().WithKeyCondition(l0).WithProjection", "expression.NewBuilder().WithKeyCondition(l0).WithProjection(l1).Build", "if(l3!=nil){", "fmt.Errorf", "return^", "}", "aws.Bool", "l2.Names", "l2.Values", "l2.KeyCondition", "aws.Int32", "l2.Projection", "aws.Bool", "aws.String", "r.svc.Query", "if(l3!=nil){", "fmt.Errorf", "return^", "}", "if(len(l4.Items)==0){", "return", "}", "decodeItem", "return^"]
+def loadLatestReturns : List String := ["nil,fmt.Errorf", "nil,fmt.Errorf", "nil,nil", "decodeItem(l4.Items[0])"]
+def storeSkeleton : List String := ["time.Now", "defer:storeDynamoDBTimer.UpdateSince", "if(p3.ParentKeyMeta!=nil){", "}", "base64.StdEncoding.EncodeToString", "attributevalue.MarshalMap", "if(l3!=nil){", "fmt.Errorf", "return^", "}", "strconv.FormatInt", "aws.String", "aws.String", "r.svc.PutItem", "if(l3!=nil){", "errors.As", "if(errors.As(l3,&l4)){", "fmt.Errorf", "return^", "}", "fmt.Errorf", "return^", "}", "return"]
 def storeReturns : List String := ["false,fmt.Errorf", "false,fmt.Errorf", "false,fmt.Errorf", "true,nil"]
-def decodeSkeleton : List String := ["attributevalue.UnmarshalMap", "if(err!=nil){", "fmt.Errorf", "return^", "}", "if(en==nil){", "fmt.Errorf", "return^", "}", "base64.StdEncoding.DecodeString", "if(err!=nil){", "fmt.Errorf", "return^", "}", "if(en.ParentKeyMeta!=nil){", "}", "return"]
+def decodeSkeleton : List String := ["attributevalue.UnmarshalMap", "if(l1!=nil){", "fmt.Errorf", "return^", "}", "if(l2==nil){", "fmt.Errorf", "return^", "}", "base64.StdEncoding.DecodeString", "if(l1!=nil){", "fmt.Errorf", "return^", "}", "if(l2.ParentKeyMeta!=nil){", "}", "return"]
 def decodeReturns : List String := ["nil,fmt.Errorf", "nil,fmt.Errorf", "nil,fmt.Errorf", "&appencryption.EnvelopeKeyRecord{…},nil"]
-def withTableNameSkeleton : List String := ["func{", "if(name!=\"\"){", "assign:d.tableName", "}", "}", "return^"]
+def withTableNameSkeleton : List String := ["func{", "if(p0!=\"\"){", "assign:l0.tableName", "}", "}", "return^"]
 def itemTags : List (String × String) := [("ID", "Id"), ("Created", "Created"), ("KeyRecord", "KeyRecord")]
 def envelopeTags : List (String × String) := [("Revoked", "Revoked,omitempty"), ("Created", "Created"), ("EncryptedKey", "Key"), ("ParentKeyMeta", "ParentKeyMeta,omitempty")]
 def keyMetaTags : List (String × String) := [("ID", "KeyId"), ("Created", "Created")]
-def envelopeFields : List (String × String) := [("Revoked", "ekr.Revoked"), ("Created", "ekr.Created"), ("EncryptedKey", "base64.StdEncoding.EncodeToString(ekr.EncryptedKey)"), ("ParentKeyMeta", "km")]
-def decodeRecordFields : List (String × String) := [("ID", "item.ID"), ("Revoked", "en.Revoked"), ("Created", "en.Created"), ("EncryptedKey", "encryptedKey"), ("ParentKeyMeta", "km")]
-def newSkeleton : List String := ["range(opts){", "opt", "}", "if(d.svc==nil){", "newDefaultClient", "if(err!=nil){", "return", "}", "assign:d.svc", "}", "if(d.regionSuffixEnabled){", "d.svc.Options", "assign:d.regionSuffix", "}", "return"]
+def envelopeFields : List (String × String) := [("Revoked", "p3.Revoked"), ("Created", "p3.Created"), ("EncryptedKey", "base64.StdEncoding.EncodeToString(p3.EncryptedKey)"), ("ParentKeyMeta", "l0")]
+def decodeRecordFields : List (String × String) := [("ID", "l0.ID"), ("Revoked", "l2.Revoked"), ("Created", "l2.Created"), ("EncryptedKey", "l3"), ("ParentKeyMeta", "l4")]
+def newSkeleton : List String := ["range(p0){", "l1", "}", "if(l0.svc==nil){", "newDefaultClient", "if(l3!=nil){", "return", "}", "assign:l0.svc", "}", "if(l0.regionSuffixEnabled){", "l0.svc.Options", "assign:l0.regionSuffix", "}", "return"]
 end V2
 end AsherahVerif.Expected.Metastore
